@@ -2,6 +2,7 @@
 //!   dltv record <suite> <mode> --seed S --n N --out FILE     direction B: drive the code, log NDJSON events
 //!   dltv replay <suite> <cases.ndjson> --out FILE            direction A: replay TLC-generated cases
 //! A side file FILE.stats.json carries the measured counts that go into the evidence.
+mod build;
 mod gen;
 mod proj;
 mod replay;
@@ -71,6 +72,7 @@ fn main() {
             let mut out = Out::new(&out_path);
             match suite {
                 "slice" => slice::record(mode, seed, n, &mut out),
+                "build" => build::record(mode, seed, n, &mut out),
                 _ => { eprintln!("unknown suite {}", suite); std::process::exit(2) }
             }
             out.finish(&out_path, json!({}));
@@ -85,6 +87,7 @@ fn main() {
             let mut out = Out::new(&out_path);
             match suite {
                 "slice" => replay::slice_cases(mode, &cases, &mut out),
+                "build" => build::replay(mode, &cases, &mut out),
                 _ => { eprintln!("unknown suite {}", suite); std::process::exit(2) }
             }
             out.finish(&out_path, json!({"cases": cases.len()}));
@@ -95,6 +98,7 @@ fn main() {
             let mut out = Out::new(&out_path);
             let e = match suite {
                 "slice" => slice::rerun(&ev),
+                "build" => build::rerun(&ev),
                 _ => { eprintln!("unknown suite {}", suite); std::process::exit(2) }
             };
             out.emit(e, true);
